@@ -5,6 +5,7 @@ import (
 	"fmt"
 	"sort"
 	"strings"
+	"sync"
 	"time"
 
 	"github.com/gittuf/gittuf/internal/luasandbox"
@@ -130,6 +131,32 @@ func sbRender(p sbProg) string {
 		}
 	}
 	return "return 1"
+}
+
+// sbSolo lets a re-run have the machine's attention: ordinary runs share it, a re-run holds it exclusively.
+var sbSolo sync.RWMutex
+
+// sbRunRobust runs p; programs that must terminate on their own get a generous timeout (so that a starved machine cannot
+// turn them into timeouts), and a non-terminating program that overshoots its 1 s deadline by a margin that scheduling
+// noise could explain is run again, alone, before the overshoot is believed.
+func sbRunRobust(p sbProg) sbObs {
+	if p.Cls != "loop" {
+		sbSolo.RLock()
+		defer sbSolo.RUnlock()
+		return sbRun(p, 60)
+	}
+	sbSolo.RLock()
+	o := sbRun(p, 1)
+	sbSolo.RUnlock()
+	for try := 0; try < 2 && o.Res == "timeout" && o.ElapsedMs > 2400 && o.ElapsedMs < 8000; try++ {
+		sbSolo.Lock()
+		o2 := sbRun(p, 1)
+		sbSolo.Unlock()
+		if o2.Res != "timeout" || o2.ElapsedMs < o.ElapsedMs {
+			o = o2
+		}
+	}
+	return o
 }
 
 func sbRun(p sbProg, timeoutSec int) sbObs {
@@ -338,7 +365,7 @@ func Sandbox(scnPath, outPath string, seed int64) error {
 	for i := range scns {
 		go func(i int) {
 			sem <- struct{}{}
-			out[i] = line{ID: i + 2, Kind: "prog", Env: empty, Prog: scns[i].Prog, Obs: sbRun(scns[i].Prog, 1)}
+			out[i] = line{ID: i + 2, Kind: "prog", Env: empty, Prog: scns[i].Prog, Obs: sbRunRobust(scns[i].Prog)}
 			<-sem
 			done <- struct{}{}
 		}(i)
